@@ -29,6 +29,12 @@ owner key it allocated with.  C14.6 the base path and the owner path, which
 relpath() combines into the link target, are canonicalised by the same
 function.  The EEXIST comparison operand of the three managers is reported as
 a sibling deviation note, not a violation.
+Added by the seeding rounds - C14.1 create routines use no replacing
+primitive; C14.2 VipMgr.initialize removes only addresses of its own network;
+C14.4 the candidate address is drawn from or checked against the configured
+network before _alloc; C14.5 the request is forgotten before its address is
+freed and freed with the same owner key; C14.6 base and owner path are
+canonicalised by the same function.
 Does NOT decide reachable-state invariants under concurrent owners.
 """
 
